@@ -74,6 +74,18 @@ def client_ctx(ver, ignore_eof=False):
     return _ctx_cache[key]
 
 
+def fresh_ctx(client, ver, ignore_eof=False):
+    """a context of its own (not the cached one): for histories of several transports created from ONE context"""
+    key = ("c" if client else "s", ver, ignore_eof)
+    saved = _ctx_cache.pop(key, None)
+    try:
+        return client_ctx(ver, ignore_eof) if client else server_ctx(ver, ignore_eof)
+    finally:
+        _ctx_cache.pop(key, None)
+        if saved is not None:
+            _ctx_cache[key] = saved
+
+
 def pha_ctxs():
     """TLS 1.3 contexts for post-handshake client authentication: (server, client); the client has a certificate and
     answers a CertificateRequest from inside ssl_object.read()."""
@@ -282,6 +294,15 @@ class RecContext:
         self.real = real_ctx
         self.rec = rec
         self.ssl_object = None
+
+    # the library may read / change the options of the context it is given: forward to the real one
+    @property
+    def options(self):
+        return self.real.options
+
+    @options.setter
+    def options(self, value):
+        self.real.options = value
 
     def wrap_bio(self, read_bio, write_bio, server_side=False, server_hostname=None, session=None):
         assert isinstance(read_bio, RecBIO) and isinstance(write_bio, RecBIO)
@@ -739,6 +760,14 @@ class ThreadRawSSLProxy:
 class ThreadRawRecContext:
     def __init__(self, real, log, tags):
         self.real, self.log, self.tags = real, log, tags
+
+    @property
+    def options(self):
+        return self.real.options
+
+    @options.setter
+    def options(self, value):
+        self.real.options = value
 
     def wrap_socket(self, sock, **kw):
         s = self.real.wrap_socket(sock, **kw)
